@@ -99,6 +99,17 @@ func init() {
 			return Val{T: tInt64, S: nv}, b.st
 		},
 		"sort.Search": bSortSearch,
+		"(encoding/binary.bigEndian).Uint64":       bBEGet(8),
+		"(encoding/binary.bigEndian).Uint32":       bBEGet(4),
+		"(encoding/binary.bigEndian).PutUint64":    bBEPut(8),
+		"(encoding/binary.bigEndian).PutUint32":    bBEPut(4),
+		"(encoding/binary.bigEndian).AppendUint64": bBEAppend(8),
+		"hash/crc32.Checksum": func(b *bctx) (Val, *State) {
+			// CRC32 is an uninterpreted function of the byte content (the table is fixed)
+			b.x.sc.declFun("crc32c", []string{"BSeq"}, "Int")
+			b.x.sc.declare("ax:crc32c", "(assert (forall ((s BSeq)) (! (and (<= 0 (crc32c s)) (<= (crc32c s) 4294967295)) :pattern ((crc32c s)))))")
+			return Val{T: b.resT.At(0).Type(), S: app("crc32c", b.x.bseq(b.st, b.args[0]))}, b.st
+		},
 		"maps.Clone":  bMapsClone,
 		"context.Context.Err": func(b *bctx) (Val, *State) {
 			// nil, context.Canceled or context.DeadlineExceeded: never a klevdb sentinel
@@ -371,4 +382,75 @@ func sortedKeys[V any](m map[string]V) []string {
 	}
 	sort.Strings(ks)
 	return ks
+}
+
+// big-endian decoding: value = sum b[off+i] * 256^(n-1-i); panics if the slice is too short
+func beValue(arr Term, off Term, n int) Term {
+	var parts []Term
+	for i := 0; i < n; i++ {
+		byteT := sel(arr, add(off, fmt.Sprint(i)))
+		w := pow2(8 * (n - 1 - i))
+		if w == "1" {
+			parts = append(parts, byteT)
+		} else {
+			parts = append(parts, "(* "+w+" "+byteT+")")
+		}
+	}
+	return "(+ " + strings.Join(parts, " ") + ")"
+}
+
+func bBEGet(n int) bhandler {
+	return func(b *bctx) (Val, *State) {
+		x := b.x
+		s := b.args[len(b.args)-1]
+		x.oblige("panic", "be-len", implies(b.reach, le(fmt.Sprint(n), app("s_len", s.S))), b.pos, fmt.Sprintf("BigEndian read needs %d bytes", n))
+		key, srt := x.elemKey(types.Typ[types.Uint8])
+		arr := sel(x.heapGet(b.st, key, srt), app("s_reg", s.S))
+		v := Val{T: b.resT.At(0).Type(), S: x.name("be", "Int", beValue(arr, app("s_off", s.S), n))}
+		// bytes are in 0..255, so the value is in range
+		for i := 0; i < n; i++ {
+			bt := sel(arr, add(app("s_off", s.S), fmt.Sprint(i)))
+			x.sc.assert("(and (<= 0 " + bt + ") (<= " + bt + " 255))")
+		}
+		return v, b.st
+	}
+}
+
+func bBEPut(n int) bhandler {
+	return func(b *bctx) (Val, *State) {
+		x := b.x
+		s := b.args[len(b.args)-2]
+		v := b.args[len(b.args)-1]
+		x.oblige("panic", "be-len", implies(b.reach, le(fmt.Sprint(n), app("s_len", s.S))), b.pos, fmt.Sprintf("BigEndian write needs %d bytes", n))
+		key, srt := x.elemKey(types.Typ[types.Uint8])
+		h := x.heapGet(b.st, key, srt)
+		arr := sel(h, app("s_reg", s.S))
+		na := arr
+		for i := 0; i < n; i++ {
+			byteV := fmt.Sprintf("(mod (div %s %s) 256)", v.S, pow2(8*(n-1-i)))
+			na = store(na, add(app("s_off", s.S), fmt.Sprint(i)), byteV)
+		}
+		nac := x.sc.freshConst("bearr", "(Array Int Int)")
+		x.sc.assert(eq(nac, na))
+		// the written bytes decode back to the value (byte extraction lemma, instantiated for v)
+		x.sc.assert(implies(and(le("0", v.S), lt(v.S, pow2(8*n))), eq(beValue(nac, app("s_off", s.S), n), v.S)))
+		x.trustedUsed[fmt.Sprintf("byte-extraction lemma: sum_i ((v div 256^i) mod 256)*256^i = v for 0 <= v < 2^%d (instantiated at each BigEndian.Put)", 8*n)] = true
+		b.st.heap[key] = x.name("h", srt, store(h, app("s_reg", s.S), nac))
+		return Val{T: b.resT}, b.st
+	}
+}
+
+func bBEAppend(n int) bhandler {
+	return func(b *bctx) (Val, *State) {
+		x := b.x
+		// only used at package init (trailerMagicData); model as a fresh slice of n bytes holding the value
+		v := b.args[len(b.args)-1]
+		reg := x.freshRef()
+		key, srt := x.elemKey(types.Typ[types.Uint8])
+		h := x.heapGet(b.st, key, srt)
+		arr := x.sc.freshConst("bearr", "(Array Int Int)")
+		x.sc.assert(eq(beValue(arr, "0", n), v.S))
+		b.st.heap[key] = x.name("h", srt, store(h, reg, arr))
+		return Val{T: b.resT.At(0).Type(), S: fmt.Sprintf("(mk_slice %s 0 %d %d)", reg, n, n)}, b.st
+	}
 }
